@@ -196,7 +196,8 @@ func (s *streamHTTP) getCodec(mediaType string, cur protoreflect.Message) (Codec
 		return c, nil
 	}
 	codecType = mediaType
-	if c, ok := s.opts.codecs[codecType]; ok {
+	// The HttpBody codec is internal: selected by message type, never by media type.
+	if c, ok := s.opts.codecs[codecType]; ok && codecType != httpBodyCodecType {
 		return c, nil
 	}
 	return nil, status.Errorf(codes.Internal, "no codec registered for content-type %q", mediaType)
